@@ -84,6 +84,8 @@ pub struct Profile {
     pub dict_values: Vec<Leaf>,
     /// decimals limited to this precision (0 = type maximum)
     pub max_str_len: usize,
+    /// how many of 8 plain strings are long (up to 3 x max_str_len)
+    pub long_str_rate: u64,
     pub max_list_len: usize,
     /// allow 8-bit dictionary keys (whose key space a concatenation can exhaust)
     pub small_dict_keys: bool,
@@ -116,6 +118,7 @@ impl Profile {
             zero_cols: false,
             dict_values: vec![Leaf::Utf8, Leaf::I32, Leaf::Binary],
             max_str_len: 12,
+            long_str_rate: 1,
             max_list_len: 4,
             small_dict_keys: true,
             all_nullable: false,
@@ -277,7 +280,7 @@ const CTL_BITS: &[&str] = &["\u{0}", "\u{1}", "\u{8}", "\u{c}", "\u{1f}"];
 pub fn gen_string(ctx: &Ctx, p: &Profile) -> String {
     match p.str_style {
         StrStyle::Plain => {
-            if ctx.chance(1, 8, "str.long") {
+            if ctx.chance(p.long_str_rate, 8, "str.long") {
                 let n = ctx.below(p.max_str_len.max(13) * 3, "str.len");
                 (0..n).map(|i| (b'a' + ((i * 7 + n) % 26) as u8) as char).collect()
             } else {
